@@ -15,7 +15,7 @@ package owa
 //@   || (typeis(x, model.WeightType) && id in x.(model.WeightType).Weights)
 
 //@ func (*owaParams).find
-//@   property C07 C15 C18
+//@   property C07 C15 C18 C03 C20
 //@   requires o.Weights != nil
 //@   panics_iff [missing] !(exists k int :: 0 <= k && k < len(*o.Weights) && (*o.Weights)[k].Id == criterion.Id)
 //@   ensures [first_match] result != nil && exists k int :: 0 <= k && k < len(*o.Weights) && *result == (*o.Weights)[k] && result.Id == criterion.Id
@@ -37,7 +37,7 @@ package owa
 //@             && model.fractionOf(result.(model.WeightType).Weights[criterion.Id], (*params.(owaParams).Weights)[k].Weight)
 
 //@ func _sortWeightsMutate
-//@   property C03 C07
+//@   property C03 C07 C20
 //@   assigns *weights
 //@   ensures [same_length] len(*weights) == old(len(*weights)) && *weights == old(*weights)
 //@   ensures [ascending] forall i int, j int :: 0 <= i && i < j && j < len(*weights) ==> (*weights)[i].Weight <= (*weights)[j].Weight
@@ -45,7 +45,7 @@ package owa
 //@   ensures [all_present] forall j int :: 0 <= j && j < len(*weights) ==> exists k int :: 0 <= k && k < len(*weights) && (*weights)[k] == old((*weights)[j])
 
 //@ func addCriteria
-//@   property C07
+//@   property C07 C03 C20
 //@   requires 0 <= offset && offset + len(*toAdd) <= len(*result) && *validationCache != nil && arr(*result) != arr(*toAdd)
 //@   assigns *result, *validationCache
 //@   ensures [copied] forall k int :: offset <= k && k < offset + len(*toAdd) ==> (*result)[k] == (*toAdd)[k - offset]
@@ -54,7 +54,7 @@ package owa
 //@   loop 1 invariant [rest_unchanged] *result == old(*result) && forall k int :: 0 <= k && k < len(*result) && !(offset <= k && k < offset + iter) ==> (*result)[k] == old((*result)[k])
 
 //@ func (*owaParams).merge
-//@   property C07 C18
+//@   property C07 C18 C03 C20
 //@   requires o.Weights != nil && other.Weights != nil
 //@   ensures [merged] result != nil && result.Weights != nil && len(*result.Weights) == len(*o.Weights) + len(*other.Weights)
 //@   ensures [old_kept] forall j int :: 0 <= j && j < len(*o.Weights) ==> exists k int :: 0 <= k && k < len(*result.Weights) && (*result.Weights)[k] == (*o.Weights)[j]
@@ -72,19 +72,19 @@ package owa
 //@ spec zipsum(ws []model.WeightedCriterion, vs []float64, n int) real = n <= 0 ? 0.0 : zipsum(ws, vs, n - 1) + vs[n - 1] * ws[n - 1].Weight
 
 //@ func calculateTotalAlternativeValue
-//@   property C03
+//@   property C03 C20
 //@   ensures [zip_sum] result == zipsum(*sortedWeights, *sortedCriteriaWeights, len(*sortedWeights))
 //@   loop 1 invariant [partial] total == zipsum(*sortedWeights, *sortedCriteriaWeights, iter)
 
 //@ func sortAlternativeCriteriaWeights
-//@   property C03 C02
+//@   property C03 C02 C20
 //@   ensures [ascending] fresh(result) && fresh(*result) && forall i int, j int :: 0 <= i && i < j && j < len(*result) ==> (*result)[i] <= (*result)[j]
 //@   ensures [values_of_the_alternative] forall k int :: 0 <= k && k < len(*result) ==> (*result)[k] == 0.0 || exists key string :: key in alternative.Criteria && (*result)[k] == alternative.Criteria[key]
 //@   loop 1 invariant [ctx] fresh(tmpCriteria) && i >= 0
 //@   loop 1 invariant [filled] forall k int :: 0 <= k && k < len(tmpCriteria) ==> tmpCriteria[k] == 0.0 || exists key string :: key in alternative.Criteria && tmpCriteria[k] == alternative.Criteria[key]
 
 //@ func sortWeights
-//@   property C03
+//@   property C03 C20
 //@   ensures [ascending_copy] fresh(result) && fresh(*result) && len(*result) == len(*weights)
 //@             && forall i int, j int :: 0 <= i && i < j && j < len(*result) ==> (*result)[i].Weight <= (*result)[j].Weight
 //@   ensures [members] forall k int :: 0 <= k && k < len(*result) ==> exists j int :: 0 <= j && j < len(*weights) && (*result)[k] == (*weights)[j]
@@ -96,15 +96,15 @@ package owa
 
 // owa expects the weights already in ascending order (its only caller, OWA, sorts a copy first)
 //@ func owa
-//@   property C03
+//@   property C03 C20
 //@   requires [weights_ascending] forall i int, j int :: 0 <= i && i < j && j < len(*sortedWeights) ==> (*sortedWeights)[i].Weight <= (*sortedWeights)[j].Weight
 //@   ensures [single_value] result != nil && typeis(result.Evaluation, model.EvaluationSingleValue) && result.Alternative == *alternative
 //@   returnhint [ascending_weights_times_ascending_values] model.val(*result) == zipsum(*sortedWeights, *sortedAlternativeCriteriaWeights, len(*sortedWeights))
 //@             && forall i int, j int :: 0 <= i && i < j && j < len(*sortedAlternativeCriteriaWeights) ==> (*sortedAlternativeCriteriaWeights)[i] <= (*sortedAlternativeCriteriaWeights)[j]
 //@ func OWA
-//@   property C03
+//@   property C03 C20
 //@   ensures [single_value] result != nil && typeis(result.Evaluation, model.EvaluationSingleValue) && result.Alternative == alternative
 //@ func (*OWAPreferenceFunc).Evaluate$1
-//@   property C03
+//@   property C03 C20
 //@   requires weights.Weights != nil
 //@   ensures [is_owa] result != nil && typeis(result.Evaluation, model.EvaluationSingleValue) && result.Alternative == *alternative
